@@ -164,6 +164,11 @@ _tls = threading.local()
 def _arrays_in(obj, path, out, depth=0):
     if isinstance(obj, np.ndarray):
         out.append((path, obj))
+    elif hasattr(obj, 'tocsr') and hasattr(obj, 'nnz'):      # scipy.sparse: the caller's data lives in these arrays
+        for part in ('data', 'indices', 'indptr', 'row', 'col', 'offsets'):
+            a = getattr(obj, part, None)
+            if isinstance(a, np.ndarray):
+                out.append(('%s.%s' % (path, part), a))
     elif isinstance(obj, (list, tuple)) and depth < 3:
         for i, x in enumerate(obj):
             _arrays_in(x, '%s[%d]' % (path, i), out, depth + 1)
